@@ -28,8 +28,12 @@ fn args_of(f: &[&str]) -> Vec<String> {
 fn main() {
     main_loop(|f| match f[0] {
         "tok" => tokens_str(&parser_line::parse_line(&dec(f[1])).tokens),
-        "rer" => q(&sc::expand_args(&dec(f[1]), &[])),
-        "xa" | "xafix" => q(&sc::expand_args(&dec(f[1]), &args_of(&f[2..]))),
+        "rt" => {
+            let t = parser_line::parse_line(&dec(f[1])).tokens;
+            let l = parser_line::tokens_to_line(&t);
+            format!("T={} R={} L={}", tokens_str(&t), tokens_str(&parser_line::parse_line(&l).tokens), q(&l))
+        }
+        "xa" => q(&sc::expand_args(&dec(f[1]), &args_of(&f[2..]))),
         "xone" => q(&sc::expand_args_for_single_token(&dec(f[1]), &args_of(&f[2..]))),
         "isargs" => (if sc::is_args_in_token(&dec(f[1])) { "1" } else { "0" }).to_string(),
         "nopos" => {
